@@ -5,7 +5,7 @@ import copy, torch
 import torchphysics as tp
 from torchphysics.utils.user_fun import UserFunction, DomainUserFunction
 from torchphysics.problem.spaces import Points, Space
-from .common import main, watched
+from .common import main, watched, pick
 
 P = [2, 3, 5, 7, 11]
 
@@ -56,7 +56,27 @@ def asdict(M):
 
 def run_one(s):
     cls = DomainUserFunction if s["cls"] == "DUF" else UserFunction
+    # every second domain-function scenario runs on the library's own subclass RotationMatrix2D (rotate.py): the wrapped function is
+    # the ANGLE function, the same wrapper bookkeeping (arguments, defaults, partial evaluation) applies; what comes back is the
+    # rotation matrix of the angle, so the value of the user function is read off what it received (log) and the matrix is checked
+    rot = s["cls"] == "DUF" and pick(s["tid"], 2, 7) == 1
+    if rot:
+        from torchphysics.problem.domains.domainoperations.rotate import RotationMatrix2D
+        cls = RotationMatrix2D
     log = []
+
+    def val(r):
+        if not rot:
+            return ival(r)
+        if not log:
+            return -99999
+        v = sum(P[i] * ival(x) for i, x in enumerate(log[-1].values()))
+        m = torch.as_tensor(r, dtype=torch.float64).reshape(-1)
+        if m.numel() == 1:            # (a plain UserFunction re-wrapped around the same angle function returns the angle itself)
+            return ival(r)
+        a = torch.tensor(float(v), dtype=torch.float64)
+        ref = torch.stack([torch.cos(a), -torch.sin(a), torch.sin(a), torch.cos(a)])
+        return v if m.numel() == 4 and bool(torch.allclose(m, ref, atol=1e-9)) else -99998
     heap = []
     funs = []
     ev = []
@@ -88,7 +108,7 @@ def run_one(s):
             before = copy.deepcopy(M) if isinstance(M, dict) else None
             r = watched(lambda: w(M))
             if r[0] == "ok":
-                e["ret"] = ival(r[1])
+                e["ret"] = val(r[1])
                 e["recv"] = {k: ival(v) for k, v in log[-1].items()} if log else {}
                 e["ncalls"] = len(log)
             else:
@@ -102,6 +122,12 @@ def run_one(s):
             e["M_same"] = list(before.keys()) == list(B.keys()) and all(ival(before[k]) == ival(B[k]) for k in before)
             if r[0] != "ok":
                 e["res"], e["excn"] = "exc", (r[1] if len(r) > 1 else "hang")
+            elif rot and isinstance(r[1], UserFunction) and not callable(r[1].fun):
+                # RotationMatrix2D.partially_evaluate wraps the VALUE of a completely bound angle function again (the rotation of a
+                # domain stays an object): the value is the matrix this constant object returns
+                e["res"] = "value"
+                e["ret"] = val(r[1]({}))
+                e["recv"] = {k: ival(v) for k, v in log[-1].items()} if log else {}
             elif isinstance(r[1], UserFunction):
                 e["res"] = "wrapper"
                 heap.append(r[1])
@@ -111,13 +137,13 @@ def run_one(s):
                     r2 = watched(lambda: r[1](R))
                     if r2[0] == "ok":
                         e["res2"] = "ok"
-                        e["ret2"] = ival(r2[1])
+                        e["ret2"] = val(r2[1])
                         e["recv2"] = {k: ival(v) for k, v in log[-1].items()} if log else {}
                     else:
                         e["res2"], e["excn"] = "exc", (r2[1] if len(r2) > 1 else "hang")
             else:
                 e["res"] = "value"
-                e["ret"] = ival(r[1])
+                e["ret"] = val(r[1])
                 e["recv"] = {k: ival(v) for k, v in log[-1].items()} if log else {}
         elif a == "setdef":
             r = watched(lambda: w.set_default(**e["M"]))
